@@ -264,6 +264,15 @@ func (e *ckksEnv) operands(level int, scale string) []opnd {
 		{kind: "*bignum.Complex", sub: "zero", class: "scalar", ptrish: true, mk: func() rlwe.Operand {
 			return &bignum.Complex{new(big.Float).SetPrec(128), new(big.Float).SetPrec(128)}
 		}},
+		// a scalar that already has the working precision of the encoder (nothing has to be converted: the evaluator
+		// may be tempted to work on the caller's numbers)
+		{kind: "*bignum.Complex", sub: "encoder-precision", class: "scalar", ptrish: true, mk: func() rlwe.Operand {
+			pr := e.p.EncodingPrecision()
+			return &bignum.Complex{new(big.Float).SetPrec(pr).SetFloat64(-0.61), new(big.Float).SetPrec(pr).SetFloat64(0.27)}
+		}},
+		{kind: "*big.Float", sub: "encoder-precision", class: "scalar", ptrish: true, mk: func() rlwe.Operand {
+			return new(big.Float).SetPrec(e.p.EncodingPrecision()).SetFloat64(0.3721)
+		}},
 		{kind: "[]complex128", sub: "len3", class: "vector", ptrish: true, mk: func() rlwe.Operand { return append([]complex128(nil), vc[:3]...) }},
 		{kind: "[]float64", sub: "len1", class: "vector", ptrish: true, mk: func() rlwe.Operand { return []float64{vf[0]} }},
 		{kind: "[]float64", sub: "zeros", class: "vector", ptrish: true, mk: func() rlwe.Operand { return make([]float64, len(vf)) }},
